@@ -551,3 +551,46 @@ Theorem transfer_call_unary :
   forall (u : uop) (d : list Q), uop_nodiv u = true -> map Q2R (call1 u d) = call1 u (map Q2R d).
 Proof. exact call1_transfer. Qed.
 Print Assumptions transfer_reduce.
+
+(* ------------------------------------------------------------------------
+   TIE BY REGENERATION: Gen/UfuncDispatch.v is re-emitted from the current
+   source on every run (translate/ufunc_dispatch.py, fail-closed); the model
+   equals the generated decision fragments, so a source change of one of them
+   breaks one of these proofs. *)
+From Coq Require Import String.
+From Verif Require Import C17.Syntax Gen.UfuncDispatch C17.GenTie.
+(* the guard on the number of out arguments *)
+Theorem generated_out_count_guard :
+  forall (m : meth) (nout n : nat),
+  len_ok m nout n = negb (gen_len_bad_tens (is_call m) nout n)
+  /\ len_ok m nout n = negb (gen_len_bad_disc (is_call m) nout n).
+Proof. exact out_count_guard_generated. Qed.
+(* the accepted out types *)
+Theorem generated_valid_out_types :
+  forall (T : Type) (o : option (@operand T)),
+  tens_valid_out o = accepts_tens gen_valid_out_tens o
+  /\ disc_valid_out o = accepts_disc gen_valid_out_disc o.
+Proof. exact valid_out_types_generated. Qed.
+(* how NumpyTensor.__array_ufunc__ builds the result space: shape from self or
+   from the result, weighting kept / reset / default, as a table over
+   (floating result?, shape unchanged?) -- for the other methods, for both
+   outputs of a two-output ufunc, and for __call__ (the variant is read off the
+   source: [gen_grow]) *)
+Theorem generated_result_space_rules :
+  forall (T : Type) (sp : tspace) (r : @narr T),
+  meth_space sp r = apply_rule (gen_meth_rule (is_floating (a_dt r)) (shape_eqb (a_shape r) (ts_shape sp))) sp r
+  /\ call_space sp 2 r = apply_rule (gen_call2_rule (is_floating (a_dt r)) (shape_eqb (a_shape r) (ts_shape sp))) sp r
+  /\ (if gen_grow then meth_space sp r else call_space sp 1 r)
+     = apply_rule (gen_call_rule (is_floating (a_dt r)) (shape_eqb (a_shape r) (ts_shape sp))) sp r.
+Proof. exact result_space_rules_generated. Qed.
+(* what the discretized element refuses, with which error class *)
+Theorem generated_discr_refusals :
+  forall (m : meth) (keepdims all_elems : bool), m <> MCall ->
+  disc_reject m keepdims all_elems = table_reject gen_disc_rejects m keepdims all_elems.
+Proof. exact disc_reject_generated. Qed.
+(* x.ufuncs.sum/prod/min/max use add/multiply/minimum/maximum; wrap_ufunc_base
+   supports exactly the arities (1,1), (1,2), (2,1) *)
+Theorem generated_legacy_tables :
+  gen_legacy_reductions = [("sum", "add"); ("prod", "multiply"); ("min", "minimum"); ("max", "maximum")]%string
+  /\ gen_legacy_arities = [(1, 1); (1, 2); (2, 1)]%nat.
+Proof. exact legacy_tables_generated. Qed.
